@@ -1168,7 +1168,14 @@ fn pan(x: &mut Exec) -> Res {
     }
     // local values: dropped exactly once, eventually
     let want = cls_users;
-    x.wait_cond(&move || CLS_DROPS.load(SeqCst) - drops0 >= want)?;
+    if let Err(Fail::Stranded(msg)) = x.wait_cond(&move || CLS_DROPS.load(SeqCst) - drops0 >= want) {
+        return viol(format!(
+            "coroutine-local values of {} owners were created but only {} were dropped after every coroutine of the storm had ended (panicked / cancelled coroutines keep their local storage); {}",
+            cls_users,
+            CLS_DROPS.load(SeqCst) - drops0,
+            msg
+        ));
+    }
     std::thread::sleep(Duration::from_millis(1));
     let d = CLS_DROPS.load(SeqCst) - drops0;
     if d != cls_users {
@@ -1405,7 +1412,14 @@ fn cls(x: &mut Exec) -> Res {
         return viol(format!("coroutine-local / fresh start: {}", e));
     }
     let want = users;
-    x.wait_cond(&move || CLS_DROPS.load(SeqCst) - drops0 >= want)?;
+    if let Err(Fail::Stranded(msg)) = x.wait_cond(&move || CLS_DROPS.load(SeqCst) - drops0 >= want) {
+        return viol(format!(
+            "coroutine-local objects of {} owners were created but only {} were dropped after every coroutine had ended (the local storage of a coroutine is never destroyed); {}",
+            users,
+            CLS_DROPS.load(SeqCst) - drops0,
+            msg
+        ));
+    }
     std::thread::sleep(Duration::from_millis(1));
     let d = CLS_DROPS.load(SeqCst) - drops0;
     if d != users {
